@@ -46,3 +46,37 @@ Print Assumptions C04_list_view_of_string.
 Theorem C04_eq_by_string : forall a b, v_eqb a b = true <-> as_str a = as_str b.
 Proof. exact v_eqb_eq. Qed.
 Print Assumptions C04_eq_by_string.
+
+(* ---- floats: the printer and the reader round-trip (Proofs/FloatFacts.v) ----
+   `fmt_float` prints the shortest digit string that reads back as the float: it tries 1..17
+   significant digits and takes the first that `f_parse`'s conversion maps back to the same bits
+   (`found a`: the search succeeds before its unchecked 17-digit fallback).  Whenever it does, the
+   printed text - after trailing zeros are stripped and in each of the three positional layouts -
+   reads back as exactly the same float; so do the zeros, the infinities, and every integer-valued
+   float below 2^53 (for which the search is shown to succeed).  Every NaN prints as "NaN" and reads
+   back as the canonical NaN (the payload is not kept: `nan_payload_lost`).  Not proved: that the
+   search succeeds for EVERY finite float (the classical "17 digits suffice" fact); the
+   correspondence run tests the round trip on special and random bit patterns. *)
+From Molt Require Import Model.Float.
+From Molt Require Proofs.FloatFacts.
+
+Theorem C04_float_round_trip_when_search_succeeds : forall a,
+  FloatFacts.finite_bits a = true -> FloatFacts.found a = true -> f_parse (fmt_float a) = Some a.
+Proof. exact FloatFacts.fmt_parse_found. Qed.
+Print Assumptions C04_float_round_trip_when_search_succeeds.
+
+Theorem C04_float_round_trip_integral : forall z, (Z.abs z < 2^53)%Z ->
+  f_parse (fmt_float (f_of_Z z)) = Some (f_of_Z z).
+Proof. exact FloatFacts.fmt_parse_f_of_Z. Qed.
+Print Assumptions C04_float_round_trip_integral.
+
+Theorem C04_float_round_trip_zero_inf :
+  (f_parse (fmt_float 0%Z) = Some 0%Z /\ f_parse (fmt_float (sign_bit true)) = Some (sign_bit true)) /\
+  (f_parse (fmt_float f_pos_inf) = Some f_pos_inf /\ f_parse (fmt_float f_neg_inf) = Some f_neg_inf).
+Proof. exact (conj FloatFacts.fmt_parse_zero FloatFacts.fmt_parse_inf). Qed.
+Print Assumptions C04_float_round_trip_zero_inf.
+
+Theorem C04_nan_reads_back_canonical : forall a, f_is_nan a = true ->
+  fmt_float a = lit "NaN" /\ f_parse (fmt_float a) = Some f_nan.
+Proof. exact FloatFacts.fmt_parse_nan. Qed.
+Print Assumptions C04_nan_reads_back_canonical.
